@@ -369,7 +369,7 @@ def evaluate(ctx, cases, tag="cases", model=True):
     if model:
         pairs = [(c, r) for c, r in zip(cases, res) if c["kind"] == "gen-wrapped" and r and "tc" in r]
         pairs.sort(key=lambda cr: len(cr[0]["src"]))
-        pairs = pairs[:ctx.n(16, 640)]        # the Gallina terms of big programs take seconds each to elaborate
+        pairs = pairs[:ctx.n(10, 640)]        # the Gallina terms of big programs take seconds each to elaborate
         b2 = compare_model(ctx, pairs, st, tag)
         broken += b2
     return failures, broken, st
@@ -475,8 +475,26 @@ def correspond(ctx):
     ctx.log("typechecked=%d ran_ok=%d bindings tested=%d probe values=%d exported=%d flagged=%d model equal=%d unmodelled=%d failures=%d broken=%s"
             % (st["typechecked"], st["ran_ok"], st["bindings_tested"], st["probe_values"], st["exported_tested"], st["flagged_modules"],
                st["model_bindings_equal"], st["model_bindings_unmodelled"], len(failures), [b[0] for b in broken]))
-    # the non-convergent corpus module must be flagged (never silent)
-    return {"coverage": coverage(cases, st, meta), "failures": dedup(failures), "broken": broken}
+    cov = coverage(cases, st, meta)
+    # `check` only searches when no failure at all is known; the known findings are always present here, so a broken
+    # tie (model differs / translator item of the solver loop no longer matches) triggers the deeper search from here
+    if (broken or translator_broken()) and not [f for f in failures if not f["key"] in KNOWN_HERE]:
+        ctx.log("tie broken (%s): deeper search with the run-time oracle" % ([b[0] for b in broken] or "translator"))
+        r = search(ctx, broken)
+        failures += r["failures"]
+        cov["search"] = r["coverage"]
+    return {"coverage": cov, "failures": dedup(failures), "broken": broken}
+
+
+KNOWN_HERE = ("unsound:int-mul-any", "unsound:tuple-slice-keeps-arity", "false-error:incompatible-type:tuple-literal-index")
+
+
+def translator_broken():
+    try:
+        rep = json.load(open(os.path.join(sv.ROOT, "build", "extract_report.json")))
+    except (OSError, ValueError):
+        return False
+    return any(("solve_" in e or "iterations" in e or "typecheck.rs" in e) for e in rep.get("errors", []))
 
 
 def dedup(failures):
